@@ -42,7 +42,8 @@ CLAIM = dict(
     "(`stateless_results`, `self_contained_results`, `h1_result_stateless`). READING of 'coefficients set for it': the public parameters "
     "(dim, mass_coeff, diffusion_coeff) of a USER's solver object are visible state; whoever calls update_params on it - the user, or a "
     "regulariser the user handed it to - sets them for later bare solver calls (`stateless` is relative to that parameter-setting part of "
-    "the history, and the oracle's fresh-process reference replays exactly that part); regularisers themselves overwrite all three and are "
+    "the history, and the oracle accepts EITHER reference - settings incl. those of regularisers, or the user's own settings only - and fails only if the call "
+    "equals neither; a call matching only the second is a tie mark); regularisers themselves overwrite all three and are "
     "independent of everything. Near-definitional parts (with the diagonal recomputed per call, Jacobi/Anderson-from-0/first-solve-sets-up are "
     "stateless by construction): the content is in MG coefficient restoration, the default instances, the parameter-forgetting normal form "
     "and in the TIE: every call of every sequence is observed through instrumented live objects (Jacobi._diag/__call__, MG.operator, "
@@ -476,6 +477,12 @@ def op_tok(op, n):
     raise ValueError(k)
 
 
+def user_ref_ops(seq, n):
+    """reference under the other admissible reading: only the update_params calls (and in-place coefficient modifications) the USER
+    issued precede the call - a regulariser is not required to leave its parameters on the solver it was handed"""
+    return [o for o in seq[:n] if o["op"] in ("ju", "mu", "cm")] + [seq[n]]
+
+
 def in_model(op):
     return not (op["op"] == "cm" or (op["op"] == "tvd" and op["method"] != "heterogeneous bregman"))
 
@@ -773,6 +780,7 @@ def _run(ctx, d, zyg):
             if op["op"] in ("ju", "mu", "cm"):
                 continue
             ref_ops = [s for o in seq[:n] for s in setting_part(o)] + [op]
+            keys.setdefault(json.dumps(user_ref_ops(seq, n), sort_keys=True), user_ref_ops(seq, n))
             keys.setdefault(json.dumps(ref_ops, sort_keys=True), ref_ops)
     def explicit_regulariser(o):
         return o["op"] in ("h1", "sb") and o["solver"] != "d"
@@ -810,8 +818,8 @@ def _run(ctx, d, zyg):
         if v.startswith("!worker-failed"):
             ctx.mark("TIE-BROKEN", {"fresh interpreter failed": v, "ops": keys[k]})
         elif v != ref[k]:
-            n_sub_bad += 1
-            ref[k] = v  # the real interpreter is the authority
+            n_sub_bad += 1  # fork vs spawn difference (thread pools, caches) is not history dependence: environment mark, reference kept
+            ctx.mark("TIE-BROKEN", {"correspondence": "fresh-interpreter-vs-forked-fresh-process", "ops": keys[k], "subprocess": v, "forked": ref[k]})
     ctx.cov["fresh_interpreter_subprocesses"] = {"cases": len(sample), "differ_from_forked_fresh_process": n_sub_bad}
 
     # ---- KNOWN (inherent, pyamg): an AMG-backed distance depends on the state of numpy's GLOBAL random generator, which every earlier
@@ -836,9 +844,8 @@ def _run(ctx, d, zyg):
         if len(seq) == 1 and seq[0]["op"] not in ("ju", "mu", "cm"):
             v = ref.get(json.dumps(seq, sort_keys=True), "")
             if v.startswith("!") and not seq[0].get("expect_raise"):
-                ctx.fail(signature(seq[0], "call").replace(":depends-on-earlier-call", "") + f":raises-in-a-fresh-process({v[1:]})",
-                         f"the operation raises {v[1:]} when issued first in a fresh process: {json.dumps(seq[0])}",
-                         {"sequence": seq, "call": 0, "in_sequence": results[seqs.index(seq)][0], "fresh_process": "a result (no exception)", "reference_ops": seq})
+                ctx.mark("TIE-BROKEN", {"correspondence": "alphabet-operation-raises-in-a-fresh-process", "operation": seq[0], "exception": v[1:],
+                                        "note": "in-sequence and reference are the same exception: this operation tests nothing (no statelessness clause is violated)"})
 
     # ---- oracle: every call of every sequence against its fresh-process reference ----
     n_cmp = 0
@@ -875,11 +882,20 @@ def _run(ctx, d, zyg):
                 continue
             ref_ops = [s for o in seq[:n] for s in setting_part(o)] + [op]
             want = ref[json.dumps(ref_ops, sort_keys=True)]
+            want_user = ref[json.dumps(user_ref_ops(seq, n), sort_keys=True)]
             n_cmp += 1
             flags.append("eq" if r == want else "ne")
-            if r != want:
+            if r != want and r == want_user:
+                # admissible: the call equals the same call after the USER's settings only (the model's reading - regulariser side effects
+                # stay on the solver - is the current implementation's, not a stated clause): a tie break, not a failing input
+                ctx.mark("TIE-BROKEN", {"correspondence": "regulariser-leaves-its-parameters-on-the-user-solver", "sequence": seq, "call": n})
+            elif r != want and any(o["op"] == "cm" for o in seq[:n]):
+                # in-place modification of a coefficient array between calls is outside the quantifier's alphabet: aliasing vs copying is free
+                ctx.mark("TIE-BROKEN", {"correspondence": "coefficient-array-aliasing(cm)", "sequence": seq, "call": n, "in_sequence": r, "reference": want})
+            elif r != want:
                 ctx.fail(signature(op, prev_class(seq, n)),
-                         f"call {n} of the sequence returned {r}; the same call issued first in a fresh process (after the parameter settings only) returns {want}",
+                         f"call {n} of the sequence returned {r}; the same call issued first in a fresh process returns {want} (after the settings incl. those of "
+                         f"regularisers) resp. {want_user} (after the user's own settings only) - it equals neither",
                          {"process_prefix": process_prefix(si, op), "sequence": seq, "call": n, "in_sequence": r, "fresh_process": want, "reference_ops": ref_ops})
             if explicit_regulariser(op):
                 # theorem regulariser_stateless: equal to the call issued first in a fresh process on a solver object that was
@@ -887,10 +903,10 @@ def _run(ctx, d, zyg):
                 wantv = ref["variant:" + json.dumps(variant_ops(seq, n), sort_keys=True)]
                 n_cmp += 1
                 if r != wantv and r == want:
-                    ctx.fail(signature(op, "solver-constructor-parameters"),
-                             f"call {n} returned {r}; the same call issued first in a fresh process with a solver object constructed with other dim / mass_coeff / "
-                             f"diffusion_coeff (which the call overwrites) returns {wantv}",
-                             {"sequence": seq, "call": n, "in_sequence": r, "fresh_process": wantv, "reference_ops": {"variant": True, "ops": variant_ops(seq, n)}})
+                    # the solver object is an argument of the call: "regularisers overwrite dim / mass / diffusion" is the model's (current code's)
+                    # behaviour, not a stated clause -> tie mark only
+                    ctx.mark("TIE-BROKEN", {"correspondence": "regulariser-overwrites-solver-constructor-parameters", "sequence": seq, "call": n,
+                                            "in_sequence": r, "variant_reference": wantv})
         impl_eq.append(flags)
     ctx.cov["compared_calls"] = n_cmp
 
